@@ -270,3 +270,85 @@ EXTRA["C15"] = extra_c15
 EXTRA["C16"] = extra_c15
 REPLAY["c15"] = replay_c15
 NO_GENERIC.update({"C15", "C16"})
+
+
+# ------------------------------------------------------------------ C10: exhaustive interleavings to a depth bound
+def c10_ops():
+    from hist import (c_branch, c_branch_delete, c_branch_rename, c_switch, c_switch_create, c_update_ref, c_commit,
+                      c_reset, Edit, c_add)
+    names = [b"a", b"ab", b"main"]
+    ops = []
+    for n in names:
+        ops += [("branch " + n.decode(), [c_branch(n)]), ("delete " + n.decode(), [c_branch_delete(n)]),
+                ("rename " + n.decode(), [c_branch_rename(n)]), ("switch " + n.decode(), [c_switch(n)]),
+                ("switch-c " + n.decode(), [c_switch_create(n)])]
+    ops.append(("update-ref a first", None))          # filled in per run: needs the id of the first commit
+    ops.append(("commit", [Edit("write", b"g", b"more"), c_add([b"g"]), c_commit(b"next")]))
+    ops.append(("reset", [c_reset("soft", b"HEAD@{1}")]))
+    return ops
+
+
+def c10_case(args):
+    goit, seq, sbase = args
+    from hist import Edit, c_add, c_commit, c_config, c_init, c_update_ref, c_branch_list, c_rev_parse
+    import hashlib
+    ops = c10_ops()
+    pre = [c_init(), c_config(b"user.name", b"Al Bo"), c_config(b"user.email", b"a@b.cc"),
+           Edit("write", b"f", b"1"), c_add([b"f"]), c_commit(b"first"),
+           Edit("write", b"f", b"2"), c_add([b"f"]), c_commit(b"second")]
+    try:
+        steps = list(pre)
+        for i in seq:
+            name, st = ops[i]
+            steps += st if st is not None else [None]        # None: update-ref to the first commit, resolved online
+        steps += [c_branch_list(), c_rev_parse([b"HEAD"])]
+
+        def nxt(snap, i):
+            if i >= len(steps):
+                return None
+            if steps[i] is None:
+                lines = [l for l in (snap.hlog or b"").split(b"\n") if l]
+                first = lines[0].split(b" ")[1].decode() if lines else "0" * 40
+                steps[i] = c_update_ref(b"refs/heads/a", first)
+            return steps[i]
+        recs = runner.run_steps(goit, nxt, len(steps), base=sbase)
+        j = runner.judge("C10", recs)
+        return {"seq": [ops[i][0] for i in seq], "oracle": j["oracle"], "corr": j["corr"], "n": len(recs),
+                "steps": [runner.step_to_json(s) for s in steps],
+                "state": hashlib.sha1(repr((sorted(recs[-1].after.refs.items()), recs[-1].after.head_raw)).encode()).hexdigest()}
+    except Exception:
+        import traceback
+        return {"seq": list(seq), "oracle": [(-1, "harness error " + traceback.format_exc()[-300:])], "corr": [], "n": 0,
+                "steps": [], "state": ""}
+
+
+def extra_c10(prop, goit, sbase, seed, tier, model_ok, stats):
+    import itertools
+    nops = len(c10_ops())
+    depth = 2 if tier == "quick" else 3
+    seqs = [s for d in range(1, depth + 1) for s in itertools.product(range(nops), repeat=d)]
+    with _pool() as pool:
+        results = pool.map(c10_case, [(goit, s, sbase) for s in seqs], chunksize=4)
+    states = set()
+    for res in results:
+        stats["evaluations"] += 1
+        stats["steps"] += res["n"]
+        states.add(res["state"])
+        if not res["oracle"] and not res["corr"]:
+            stats["validated"] += 1
+        steps = [step_from_json(s) for s in res["steps"]]
+        for i, msg in res["oracle"]:
+            stats["oracle_failures"].append({"seed": None, "steps": steps, "i": i, "msg": msg,
+                                             "step_name": steps[i].name if 0 <= i < len(steps) and steps[i].kind == "cmd" else ""})
+        for i, dd in res["corr"]:
+            stats["corr_failures"].append({"seed": None, "steps": steps, "i": i, "diffs": dd,
+                                           "step_name": steps[i].name if steps[i].kind == "cmd" else ""})
+    stats["distinct_nontrivial"] += len(states)
+    stats["distribution"]["commands"]["exhaustive-depth-%d" % depth] = len(seqs)
+    stats["samples"].append({"exhaustive": "all %d sequences of length <= %d over %d branch/switch/update-ref/commit/reset "
+                             "operations on names a, ab, main, after two commits; %d distinct final (refs, HEAD) states"
+                             % (len(seqs), depth, nops, len(states))})
+    stats["notes"].append("exhaustive C10 exploration to depth %d complete: exhaustive within that bound" % depth)
+
+
+EXTRA["C10"] = extra_c10
